@@ -22,7 +22,7 @@ NOT_APPLICABLE = {
     "C19": "reflection-driven conversion is a pure function of (result, target type, bindings); panics on bad targets are covered by C15; " + NA_COMMON,
 }
 
-PENDING = {k: "not claimed yet: DESIGN.md plans a check for this property but it is not built in this commit" for k in ["C13", "C14", "C15", "C20"]}
+PENDING = {k: "not claimed yet: DESIGN.md plans a check for this property but it is not built in this commit" for k in []}
 
 CHECKS = {
     "C09": dict(
@@ -45,6 +45,26 @@ CHECKS = {
         technique="deterministic simulation of the io.Reader seam (delivery schedules, read errors, truncation, content corruption as tag-soup source) with a differential oracle: independent html.Parse + plain DOM walk",
         text="Generated pages and their truncated/corrupted variants go through ReadHtml under drawn delivery schedules; every input that starts with a doctype must yield exactly the tree of golang.org/x/net/html walked by a plain recursion (local names, attributes minus xmlns declarations with prefixes stripped, text, comments, nothing skipped or duplicated, no namespaces); a failing reader must produce an error. Weakly in-family: the property is a pure function of the bytes reached through a stream seam (DESIGN §6.7).",
         note="The reference is x/net/html itself, as the property states. Names carry at most one colon. Inputs without a leading doctype are only monitored for crashes."),
+    "C13": dict(
+        engine="history", category="exploration", design_ref="§6.4",
+        technique="deterministic simulation of the caller and of user callbacks: seeded call histories over shared cursors, shared compiled expressions, caller-owned maps and held result slices (aliasing, spare capacity), callbacks that fail, panic, hand out held slices or re-enter Exec; oracle = snapshot invariants + the same query in a fresh isolated world",
+        text="Each run is a history of 3-24 public API calls on 1-3 shared documents. After every operation: documents, held slices, caller-owned maps and the exported face of every compiled expression are unchanged (I1); every query equals the same query in a fresh isolated world - re-parsed documents, re-built expression, re-created bindings (I2); verbatim repeats agree (I3); rebuilding a string gives the same parse structure (I4).",
+        note="No XPath reference evaluator: the implementation is compared with itself, so defects that do not depend on history cancel (those belong to not-applicable properties). Only public observations are used. I4 replays probabilistically."),
+    "C14": dict(
+        engine="sched-lib + sched-cli", category="exploration", design_ref="§6.6, §4",
+        technique="deterministic simulation with seeded schedulers over yield points inserted at build time (go build -overlay, nothing committed in /repo): scheduler L = turn token without happens-before edges so that the Go race detector stays sound under a chosen interleaving (plain + -race builds, same seeds); scheduler P = park/release with blocked-state detection from goroutine wait reasons, driving the real CLI main() as task 0",
+        text="Library: 2-4 tasks run Exec/Unmarshal/GetCursorString/BuildExpr on one shared tree, one pool of compiled expressions and one set of bindings (incl. shared node-set variables with spare capacity); every operation must return its isolated-world result, the shared world must be unchanged after the join, and the -race build of the same seeds must report nothing in /repo code. CLI: `-c N` under drawn schedules (uniform, priority change points, run-to-block, starvation) must terminate by main returning and print exactly the per-file blocks of `-c 1`, each once and contiguous.",
+        note="Yield granularity is the Go statement; the generated lexer/GLL parser and map-ranging build-time functions are not yield-instrumented (BuildExpr is atomic in the plain build; the race build still sees their memory accesses). GOMAXPROCS=1 inside simulations. A mutant that adds blocking primitives to the library makes scheduler L inconclusive (exit 2)."),
+    "C15": dict(
+        engine="hostile", category="exploration", design_ref="§6.5",
+        technique="deterministic simulation with heavy fault injection at every seam: failing/garbage streams into all readers, failing/panicking/nil-returning callbacks, nil and odd bindings, unfillable Unmarshal targets, boundary-class numerics and token-mutated expressions; oracle = terminates, value xor error, no panic, no internal 'xpath query panic' for well-typed queries",
+        text="Seeded hostile runs of three kinds (streams, queries, Unmarshal targets) under a monitor that catches escaped panics, (nil, nil) returns and internal-panic errors; worker-process aborts and hangs (180 s watchdog) are attributed to the run in progress.",
+        note="Arbitrary byte strings as *expression* are only sampled (pure-input clause; the simulator adds nothing there). 'xpath query panic' is judged only for un-mutated generated expressions in runs without panicking/nil callbacks or nil variables."),
+    "C20": dict(
+        engine="cli", category="exploration", design_ref="§6.8",
+        technique="deterministic simulation of the CLI process: the real main() runs as task 0 under scheduler P over a generated directory tree with injected file faults (truncated, corrupted, empty, dangling symlink, symlink to directory, unknown extension, missing file), generated argv and stdin; oracle = record-by-record comparison with what the same library computes, -m records judged by re-parsing, per-input isolation",
+        text="For every scenario the tool runs once over the whole set and once per expanded input. Each input's stdout must be exactly the expected records (prefix, string value, -a per node, -m single-line XML that parses back to the node: expanded names, attributes, text, comments, PIs); unreadable/unparsable inputs must print nothing and a diagnostic; the whole-set stdout must be the concatenation of the per-input outputs in argument/walk order.",
+        note="Both sides use the same library, so XPath-semantics defects cancel. Diagnostic wording and exit status are not judged. Nodes that have no XML serialisation at all (characters outside XML Char, comments containing --) are not judged. Four genuine -m defects are listed as known findings (known_findings.json)."),
 }
 
 
@@ -79,6 +99,11 @@ def main():
         "engines": [
             {"name": "stream", "path": "engines/stream", "serves_properties": ["C09", "C16", "C17"], "kind_free_text": "simulated io.Reader (delivery schedule + truncation/read-error/corruption faults) in front of the real readers"},
             {"name": "stream-json/html", "path": "engines/stream", "serves_properties": ["C16", "C17"], "kind_free_text": "same simulated reader in front of ReadJson / ReadHtml"},
+            {"name": "history", "path": "engines/history", "serves_properties": ["C13"], "kind_free_text": "simulated caller + callbacks over the real library; isolated-world reference"},
+            {"name": "sched-lib", "path": "engines/schedlib + hook/schedl.go + instr", "serves_properties": ["C14"], "kind_free_text": "seeded statement-level scheduler over overlay-instrumented library sources; plain and -race builds"},
+            {"name": "sched-cli", "path": "engines/cli/sched.go + hook/schedp.go + hook/clisim", "serves_properties": ["C14"], "kind_free_text": "seeded goroutine scheduler driving the real CLI main()"},
+            {"name": "cli", "path": "engines/cli", "serves_properties": ["C20"], "kind_free_text": "simulated argv/stdin/file tree with file faults around the real CLI"},
+            {"name": "hostile", "path": "engines/hostile", "serves_properties": ["C15"], "kind_free_text": "fault-heavy configurations of all seams under a crash monitor"},
             {"name": "events", "path": "engines/events", "serves_properties": ["C10"], "kind_free_text": "scripted Parser histories + stack-ceiling fault in front of the real store"},
         ],
         "checks": checks,
